@@ -267,6 +267,8 @@ def c16_scenarios(tier):
     # further flags: --fail-on-undefined (everything is defined), the commands given as a sequence
     for n in ([2, 5, 24] if tier == "quick" else [2, 3, 5, 13, 24, 48]):
         out.append(("c16", {"n": n, "pos": "middle", "ncmd": 1, "flags": "fail-on-undefined"}, {}))
+        out.append(("c16", {"n": n, "pos": "only", "ncmd": 1, "flags": "fail-on-undefined"}, {}))   # (the group under test is the first thing that runs)
+        out.append(("c16", {"n": n, "pos": "first", "ncmd": 2, "flags": "fail-on-undefined"}, {}))
         out.append(("c16", {"n": n, "pos": "middle", "ncmd": 2, "flags": "sequence"}, {}))
     # the group reached through -t ... --deps instead of change detection
     for n in ([2, 5, 24] if tier == "quick" else [2, 3, 5, 13, 24, 48]):
@@ -1199,6 +1201,12 @@ def c05_scenarios(tier):
                 a = ["-c", "build"] + (["-t"] + explicit + (["--deps"] if deps else []) if explicit else []) + extra
                 out.append(("c05", {"shape": sh, "modes": [[t, c, m] for (t, c), m in sorted(modes.items())], "args": a, "commands": ["build"],
                                     "sequences": None, "checkpoint": None, "changed": None, "explicit": explicit, "deps": deps}, {}))
+        # retention settings at the lower end (0 and 1), several runs in a row in the same repository
+        for maxr_ in (0, 1):
+            for (explicit, deps) in ((None, False), (paths[-1:], True)):
+                a = ["-c", "build", "test"] + (["-t"] + explicit + ["--deps"] if explicit else [])
+                out.append(("c05", {"shape": sh, "modes": [[t, c, m] for (t, c), m in sorted(modes.items())], "args": a, "commands": ["build", "test"],
+                                    "sequences": None, "checkpoint": None, "changed": None, "explicit": explicit, "deps": deps, "maxr": maxr_, "context": ["prior-ok"]}, {}))
         # --deps without -t adds nothing: still exactly the changed targets
         if len(paths) > 1:
             for changed in (paths[:1], paths[-1:]):
@@ -1250,6 +1258,10 @@ def c05_task(desc):
     viol = []
     try:
         r = sched.build_repo(s, sn)
+        if "maxr" in desc:
+            # a retention setting of zero / one (how many runs are kept has nothing to do with what is run)
+            r.cfg["max_retained_runs"] = desc["maxr"]
+            r.write_cfg()
         for (t, c) in ext:
             r.command_file(t, c, "x", cmd_dir="ext/%s" % t, name="%s.sh" % c)
             modes[(t, c)] = "x"
